@@ -39,6 +39,11 @@ Definition observed_denies (ks : akeys) (static_exists : bool) (pols : list auth
 Definition model_policies (root : N) (all : list pa) : list authz :=
   flat_map (fun c => match derived_policy root all c with Some z => [z] | None => [] end) all.
 
+(* one step of a HISTORY: the policy set after the operation and, after the push it triggered: the server's inbound
+   mode for the port (policy applier), its virtualInbound chains for the port, whether the client's CDS cluster
+   carries the tlsMode=istio transport-socket match, whether the EDS endpoints carry tlsMode=istio metadata *)
+Inductive hstep := HStep (all : list pa) (o_srv : mode) (o_chains : list (chain * option bool)) (o_cds o_eds : bool).
+
 Inductive case :=
 (* sidecar-side pipeline: initAuthenticationPolicies over [all]; for one workload:
    GetPeerAuthenticationsForWorkload keys (namespace, name), NewPolicyApplier(...).GetMutualTLSModeForPort
@@ -58,7 +63,9 @@ Inductive case :=
 | Keys (id : N) (root : N) (l : list pa) (o : akeys)
 (* PolicyCollections + buildWorkloadPolicies over static krt collections *)
 | Ambient (id : N) (root : N) (all : list pa) (wl_ns : N) (labels : list (N * N)) (probes : list N)
-    (o_keys : akeys) (o_static_exists : bool) (o_policies : list authz).
+    (o_keys : akeys) (o_static_exists : bool) (o_policies : list authz)
+(* fake discovery server with warm xDS caches; HTTP service port *)
+| History (id : N) (root wl_ns : N) (labels : list (N * N)) (port : N) (steps : list hstep).
 
 Definition case_id c :=
   match c with
@@ -68,6 +75,7 @@ Definition case_id c :=
   | Convert id _ _ _ _ _ => id
   | Keys id _ _ _ => id
   | Ambient id _ _ _ _ _ _ _ _ => id
+  | History id _ _ _ _ _ => id
   end.
 
 Definition model_ok (c : case) : bool :=
@@ -93,6 +101,15 @@ Definition model_ok (c : case) : bool :=
       akeys_eqb (converted_selector_keys root (fetch_peer_authentications root all wl_ns labels)) o_keys &&
       Bool.eqb (negb (match all with [] => true | _ => false end)) o_static &&
       list_eqb authz_eqb (model_policies root all) o_pols
+  | History _ root wl_ns labels port steps =>
+      forallb (fun st => match st with HStep all o_srv o_chains o_cds o_eds =>
+        let m := sidecar_mode root all wl_ns labels [] port in
+        mode_eqb m o_srv &&
+        list_eqb chain_sock_eqb (with_sockets m (chain_opts m LHTTP)) o_chains &&
+        (* CDS: cluster_tls.go buildUpstreamTLSSettings keeps auto mTLS unless the inferred service mode is DISABLE *)
+        Bool.eqb (negb (mode_eqb (best_effort_infer (add_peer_authentication root all) wl_ns) MDisable)) o_cds &&
+        (* EDS: mtls_checker.go checkMtlsEnabled *)
+        Bool.eqb (check_mtls_enabled root all wl_ns labels port) o_eds end) steps
   end.
 
 (* no workload-level policy applies to the workload: the namespace resolver is then the whole story *)
@@ -127,6 +144,18 @@ Definition prop_ok (c : case) : bool :=
                  (mode_eqb (effective_mode root all wl_ns labels p) MStrict) &&
         (* ... and an authenticated peer is never rejected by the converted policies *)
         negb (observed_denies o_keys o_static o_pols true p)) probes
+  | History _ root wl_ns labels port steps =>
+      forallb (fun st => match st with HStep all o_srv o_chains o_cds o_eds =>
+        (* after every push: the server's inbound mode is the effective mode, its chains enforce it ... *)
+        mode_eqb (effective_mode root all wl_ns labels port) o_srv && enforces o_srv o_chains &&
+        (* ... and the client (mTLS iff cluster match AND endpoint metadata) is compatible with it: a STRICT server is
+           sent mutual TLS, a DISABLE server plaintext (a PERMISSIVE server accepts both) *)
+        let client_mtls := o_cds && o_eds in
+        match o_srv with
+        | MStrict => client_mtls
+        | MDisable | MUnset => negb client_mtls
+        | MPermissive => true
+        end end) steps
   end.
 
 Definition mismatches := check_all case_id model_ok prop_ok.
